@@ -345,6 +345,15 @@ where
                 key.handle() == *key_handle && key.set().handle() == *set_handle
             }
             Filter::AnnotationDataSet(set_handle, _) => key.set().handle() == *set_handle,
+            Filter::AnnotationData(set_handle, data_handle, _) => {
+                key.set().handle() == *set_handle
+                    && key.data().any(|data| data.handle() == *data_handle)
+            }
+            Filter::Keys(keys, FilterMode::Any, _) => keys.contains(&key.fullhandle()),
+            Filter::BorrowedKeys(keys, FilterMode::Any, _) => keys.contains(&key.fullhandle()),
+            Filter::Annotation(annotation, SelectionQualifier::Normal, _) => {
+                key.annotations().filter_handle(*annotation).test()
+            }
             Filter::Annotations(
                 annotations,
                 FilterMode::Any,
